@@ -26,19 +26,19 @@ theorem foldlM_some_eq {α β : Type} (fP : α → β → Option α) (f : α →
       simp only [List.foldl_cons, h init b a hb]
       exact ih a r hr
 
-theorem mainlineIterP_eq (am : List Event) : ∀ (fuel : Nat) (e : Event) (acc r : List Event),
-    mainlineIterP am fuel e acc = some r → mainlineIter am fuel e acc = r := by
+theorem mainlineIterP_eq (am : List Event) : ∀ (fuel : Nat) (path : List ID) (e : Event) (acc r : List Event),
+    mainlineIterP am fuel path e acc = some r → mainlineIter am fuel path e acc = r := by
   intro fuel
   induction fuel with
-  | zero => intro e acc r h; simp only [mainlineIterP] at h; cases h
+  | zero => intro path e acc r h; simp only [mainlineIterP] at h; cases h
   | succ fuel ih =>
-    intro e acc r h
+    intro path e acc r h
     simp only [mainlineIterP] at h
     simp only [mainlineIter]
     refine foldlM_some_eq _ _ ?_ _ _ _ h
     intro a p r' hr
     split at hr
-    · rename_i hp; simp only [hp, if_true]; exact ih p a r' hr
+    · rename_i hp; simp only [hp, if_true]; exact ih _ p a r' hr
     · rename_i hp; simp only [hp]; cases hr; rfl
 
 theorem createMainlineP_eq {am : List Event} {pl : Option Event} {m : List Event} (h : createMainlineP am pl = .ok m) :
@@ -50,12 +50,13 @@ theorem createMainlineP_eq {am : List Event} {pl : Option Event} {m : List Event
   · split at h
     · rename_i m' hm
       cases h
-      exact (mainlineIterP_eq am _ _ _ _ hm).symm
+      exact (mainlineIterP_eq am _ _ _ _ _ hm).symm
     · cases h
 
 theorem firstMainlineP_go_eq (am ml : List Event) (fuel : Nat)
-    (ih : ∀ e st r, firstMainlineP am ml fuel e st = some r → firstMainline am ml fuel e st = r) :
-    ∀ (ps : List Event) (st r : Nat × Nat), firstMainlineP.go am ml fuel ps st = some r → firstMainline.go am ml fuel ps st = r := by
+    (ih : ∀ path e st r, firstMainlineP am ml fuel path e st = some r → firstMainline am ml fuel path e st = r) (path : List ID) :
+    ∀ (ps : List Event) (st r : Nat × Nat), firstMainlineP.go am ml fuel path ps st = some r →
+      firstMainline.go am ml fuel path ps st = r := by
   intro ps
   induction ps with
   | nil => intro st r h; rw [firstMainlineP.go.eq_1] at h; rw [firstMainline.go.eq_1]; cases h; rfl
@@ -71,23 +72,27 @@ theorem firstMainlineP_go_eq (am ml : List Event) (fuel : Nat)
       · rename_i pos hpos; rw [hpos]; cases h; rfl
       · rename_i hpos
         rw [hpos]
+        simp only
         split at h
-        · rename_i st' hst
-          simp only
-          rw [ih p _ st' hst]
-          exact ihp st' r h
-        · cases h
+        · rename_i hc; rw [if_pos hc]; exact ihp st r h
+        · rename_i hc
+          rw [if_neg hc]
+          split at h
+          · rename_i st' hst
+            rw [ih _ p _ st' hst]
+            exact ihp st' r h
+          · cases h
 
-theorem firstMainlineP_eq (am ml : List Event) : ∀ (fuel : Nat) (e : Event) (st r : Nat × Nat),
-    firstMainlineP am ml fuel e st = some r → firstMainline am ml fuel e st = r := by
+theorem firstMainlineP_eq (am ml : List Event) : ∀ (fuel : Nat) (path : List ID) (e : Event) (st r : Nat × Nat),
+    firstMainlineP am ml fuel path e st = some r → firstMainline am ml fuel path e st = r := by
   intro fuel
   induction fuel with
-  | zero => intro e st r h; rw [firstMainlineP.eq_1] at h; cases h
+  | zero => intro path e st r h; rw [firstMainlineP.eq_1] at h; cases h
   | succ fuel ih =>
-    intro e st r h
+    intro path e st r h
     rw [firstMainlineP.eq_2] at h
     rw [firstMainline.eq_2]
-    exact firstMainlineP_go_eq am ml fuel ih _ st r h
+    exact firstMainlineP_go_eq am ml fuel ih path _ st r h
 
 theorem otherKeyP_eq {am ml : List Event} {e : Event} {k : OtherKey} (h : otherKeyP am ml e = .ok k) : k = otherKey am ml e := by
   unfold otherKeyP at h
@@ -95,7 +100,7 @@ theorem otherKeyP_eq {am ml : List Event} {e : Event} {k : OtherKey} (h : otherK
   split at h
   · rename_i pos steps hf
     cases h
-    rw [firstMainlineP_eq am ml _ _ _ _ hf]
+    rw [firstMainlineP_eq am ml _ _ _ _ _ hf]
   · cases h
 
 theorem otherKeysP_eq {am ml : List Event} : ∀ {evs : List Event} {ks : List (Event × OtherKey)},
